@@ -29,6 +29,7 @@ import (
 	"sort"
 	"strconv"
 	"strings"
+	"sync"
 	"time"
 
 	"github.com/elk-language/elk/bitfield"
@@ -411,8 +412,18 @@ type natResult struct {
 	Rep      report
 }
 
+// runNative runs program k of the combined binary (the programs finish in milliseconds); a run that exceeds 15 s is
+// repeated once with two minutes before it is believed to hang (the machine is shared).
 func runNative(bin string, k int) (res natResult) {
-	rctx, rcancel := context.WithTimeout(context.Background(), 120*time.Second)
+	res = runNativeT(bin, k, 15*time.Second)
+	if res.Status == "run-timeout" {
+		res = runNativeT(bin, k, 120*time.Second)
+	}
+	return res
+}
+
+func runNativeT(bin string, k int, limit time.Duration) (res natResult) {
+	rctx, rcancel := context.WithTimeout(context.Background(), limit)
 	defer rcancel()
 	run := exec.CommandContext(rctx, bin, fmt.Sprint(k))
 	run.Dir = filepath.Dir(bin)
@@ -487,6 +498,7 @@ func goPanicSig(stderr string) string {
 // ---------------------------------------------------------------- per-worker preparation
 
 type rec struct {
+	nat   natResult
 	it    item
 	b     batch
 	src   string
@@ -586,7 +598,23 @@ func prepare(thorough bool) {
 			}
 		}
 	}
-	// only the binary is needed from here on
+	// run every built program now, four at a time (so that hanging programs overlap)
+	var wg sync.WaitGroup
+	sem := make(chan struct{}, 4)
+	for _, rc := range recs {
+		if !rc.built {
+			continue
+		}
+		wg.Add(1)
+		go func(rc *rec) {
+			defer wg.Done()
+			sem <- struct{}{}
+			rc.nat = runNative(bin, rc.key)
+			<-sem
+		}(rc)
+	}
+	wg.Wait()
+	// only the binary is needed from here on (replays)
 	ents, _ := os.ReadDir(dir)
 	for _, e := range ents {
 		if e.Name() != "prog" {
@@ -671,9 +699,9 @@ func checkItem(r *engine.R, rc *rec) {
 	if !rc.built {
 		panic("internal: program neither built nor failed: " + it.Tag)
 	}
-	nat := runNative(nativeBin, rc.key)
+	nat := rc.nat
 	if nat.Status == "run-timeout" {
-		r.Violation("native binary hangs: "+it.Sig, fmt.Sprintf("%s\n--- VM finished (failed=%v) with stdout %q; the native binary did not finish in 120 s", src, vmr.Failed, vmr.Stdout), src)
+		r.Violation("native binary hangs: "+strings.TrimSuffix(strings.TrimSuffix(it.Sig, " ctx=meth"), " ctx=top"), fmt.Sprintf("%s\n--- VM finished (failed=%v) with stdout %q; the native binary did not finish in 15 s nor, run again, in 120 s", src, vmr.Failed, vmr.Stdout), src)
 		r.Outcome("violation: native hang")
 		return
 	}
@@ -696,24 +724,33 @@ func checkItem(r *engine.R, rc *rec) {
 		return
 	}
 	ok := true
-	if nat.Stdout != vmr.Stdout {
+	statusDiffers := natFailed != vmr.Failed
+	headDiffers := vmr.Failed && natFailed && vmr.Rep.Head != nat.Rep.Head
+	// when one side stops early with an uncaught error, the shorter stdout is a consequence: one violation, not two
+	truncated := (statusDiffers || headDiffers) && (strings.HasPrefix(vmr.Stdout, nat.Stdout) || strings.HasPrefix(nat.Stdout, vmr.Stdout))
+	if nat.Stdout != vmr.Stdout && !truncated {
 		ok = false
 		r.Violation("stdout differs: "+it.Sig,
 			fmt.Sprintf("%s\n--- %s\n--- VM failed=%v; native exit=%d %s", src, firstDiff(vmr.Stdout, nat.Stdout), vmr.Failed, nat.ExitCode, firstLines(nat.Stderr, 6)), src)
 	}
-	if natFailed != vmr.Failed {
+	switch {
+	case statusDiffers && natFailed:
 		ok = false
-		what := "native fails, VM succeeds"
-		if vmr.Failed {
-			what = "VM fails, native succeeds"
-		}
-		r.Violation(fmt.Sprintf("status differs (%s): %s", what, it.Sig),
-			fmt.Sprintf("%s\n--- VM: failed=%v %s\n--- native: exit=%d stderr:\n%s", src, vmr.Failed, vmr.Rep.Head, nat.ExitCode, firstLines(nat.Stderr, 10)), src)
-	} else if vmr.Failed {
+		r.Violation("native-only uncaught error: "+normHead(nat.Rep.Head),
+			fmt.Sprintf("construct: %s\n%s\n--- VM: succeeds, stdout %q\n--- native: exit=%d stdout %q stderr:\n%s", it.Sig, src, vmr.Stdout, nat.ExitCode, nat.Stdout, firstLines(nat.Stderr, 10)), src)
+	case statusDiffers:
+		ok = false
+		r.Violation("native run misses the uncaught error: "+normHead(vmr.Rep.Head),
+			fmt.Sprintf("construct: %s\n%s\n--- VM: fails: %s stdout %q\n--- native: exit=0 stdout %q", it.Sig, src, vmr.Rep.Head, vmr.Stdout, nat.Stdout), src)
+	case headDiffers:
+		ok = false
+		r.Violation("native-only uncaught error: "+normHead(nat.Rep.Head),
+			fmt.Sprintf("construct: %s\n%s\n--- VM:     %s\n--- native: %s\n--- VM stdout %q, native stdout %q", it.Sig, src, vmr.Rep.Head, nat.Rep.Head, vmr.Stdout, nat.Stdout), src)
+	case vmr.Failed:
 		if !compareReports(r, it, src, vmr.Rep, nat.Rep) {
 			ok = false
 		}
-	} else if strings.TrimSpace(nat.Stderr) != strings.TrimSpace(vmr.Rep.Raw) {
+	case strings.TrimSpace(nat.Stderr) != strings.TrimSpace(vmr.Rep.Raw):
 		ok = false
 		r.Violation("stderr of a successful run differs: "+it.Sig, fmt.Sprintf("%s\n--- VM stderr %q, native stderr %q", src, vmr.Rep.Raw, nat.Stderr), src)
 	}
@@ -759,10 +796,6 @@ func headClass(h string) string {
 func compareReports(r *engine.R, it item, src string, v, n report) bool {
 	ok := true
 	both := fmt.Sprintf("%s\n--- VM report:\n%s--- native report:\n%s", src, v.Raw, n.Raw)
-	if v.Head != n.Head {
-		ok = false
-		r.Violation("uncaught-error headline differs: "+it.Sig, fmt.Sprintf("--- VM:     %s\n--- native: %s\n%s", v.Head, n.Head, both), src)
-	}
 	if len(v.Frames) != len(n.Frames) {
 		ok = false
 		what := "frames missing"
@@ -792,7 +825,7 @@ func compareReports(r *engine.R, it item, src string, v, n report) bool {
 		}
 		if a.Line != b.Line {
 			ok = false
-			r.Violation(fmt.Sprintf("uncaught-error report: %s frame line differs: %s", pos, lineSigClass(it.Sig)),
+			r.Violation(fmt.Sprintf("uncaught-error report: %s frame line differs (%s)", pos, lineSigClass(it.Sig)),
 				fmt.Sprintf("construct: %s\nframe %d: VM line %d, native line %d\n%s", it.Sig, i, a.Line, b.Line, both), src)
 		}
 		if a.Tail != b.Tail {
@@ -803,13 +836,27 @@ func compareReports(r *engine.R, it item, src string, v, n report) bool {
 	return ok
 }
 
-// lineSigClass keeps the part of an error-program signature that determines where line numbers are recorded
-// (raising site and call depth), dropping the error kind.
+// lineSigClass: what determines where the backend records line numbers: whether the error is raised directly in the
+// frame or inside something the frame called.
 func lineSigClass(sig string) string {
-	if i := strings.Index(sig, "depth="); i >= 0 {
-		return sig[i:]
+	if strings.Contains(sig, "depth=0") {
+		return "error raised directly in the frame"
 	}
-	return sig
+	return "error raised inside a callee of the frame"
+}
+
+var backquoteRe = regexp.MustCompile("`[^`]*`")
+
+// normHead turns an uncaught-error headline into a signature fragment: class and message without concrete values.
+func normHead(h string) string {
+	h = strings.TrimPrefix(h, "Error! Uncaught error ")
+	h = strings.TrimPrefix(h, "Error! ")
+	h = backquoteRe.ReplaceAllString(h, "`…`")
+	h = digitsRe.ReplaceAllString(h, "N")
+	if len(h) > 110 {
+		h = h[:110]
+	}
+	return h
 }
 
 func runBatch(c *engine.Ctx, r *engine.R, b batch) {
